@@ -177,3 +177,56 @@ def iterrowmap(h):
                 ctx.oblige('iterrowmap: the given header is emitted first, once',
                            z3.And(pre.len == 1, _t(row_eq(out_row(pre, 0), header))))
         h.explore(body)
+
+
+@vc('C19.iterfieldconvert', functions=[CONV + 'iterfieldconvert', 'petl.util.base.Record.__init__'], props=['C19', 'C12', 'C02', 'C03', 'C20'],
+    assumptions=['converters and `where` are deterministic callbacks that may raise', 'stateless-body rule (engine meta-theorem)'])
+def iterfieldconvert(h):
+    """the two row loops (with and without `where`): one output row per input row; converted cells per the policy,
+    every other cell and every row rejected by `where` unchanged"""
+    for policy in (False, 'inline'):
+        for use_where in (False, True):
+            def body(ctx, policy=policy, use_where=use_where):
+                errorvalue = sym_cell('errorvalue')
+                convs = [(0, 'conv0'), (2, 'conv2')]
+
+                def cellspec(rs, j):
+                    v = z3.Select(rs.arr, j)
+                    t = v
+                    for k, name in reversed(convs):
+                        r, raises, exc = bi.ucall_terms(name, [v])
+                        bad = exc if policy == 'inline' else as_v(errorvalue)
+                        t = z3.If(j == k, z3.If(raises, bad, r), t)
+                    return t
+
+                def delta(ls, x, dout):
+                    rs = view_seq(x.attrs['_tuple'] if isinstance(x, Instance) else x)
+                    xv = as_v(x.attrs['_tuple']) if isinstance(x, Instance) else as_v(x)
+                    o = out_row(dout, 0)
+                    q = smt.fresh_int('q')
+                    conv = z3.And(o.len == rs.len, z3.ForAll([q], z3.Implies(z3.And(0 <= q, q < rs.len), z3.Select(o.arr, q) == cellspec(rs, q))))
+                    if use_where:
+                        w, wraises, _ = bi.ucall_terms('where', [xv])
+                        body_ = z3.If(smt.truthy(w), conv, _t(row_eq(o, rs)))
+                    else:
+                        body_ = conv
+                    ctx.oblige('iterfieldconvert(failonerror=%r, where=%s): one output row per row; converted per policy, untouched otherwise' % (policy, use_where),
+                               z3.And(dout.len == 1, body_))
+                loops = {(CONV + 'iterfieldconvert', 1): LoopSpec(delta=delta, label='rows'),
+                         (CONV + 'iterfieldconvert', 2): LoopSpec(delta=delta, label='rows (where)')}
+                it = h.interp(ctx, loops=loops)
+                converters = bi.SDict()
+                for k, name in convs:
+                    converters.setitem(it, k, UCall(name))
+                S = sym_table(ctx, 'S', nmin=1)
+                fn = closure_of(it, CONV + 'iterfieldconvert')
+                res = run_generator(it, fn, [S, converters, policy, errorvalue, UCall('where') if use_where else None, False])
+                if res.exc is not None:
+                    inloop = getattr(ctx, 'in_iteration', None)
+                    ctx.oblige('iterfieldconvert(failonerror=%r): only an exception of `where` escapes, at its row' % (policy,),
+                               z3.BoolVal(use_where and inloop is not None and res.exc.kind == 'UserError'))
+                    return
+                pre = ctx.pre_loop_out
+                ctx.oblige('iterfieldconvert: the header is passed through unchanged, once; nothing after the last row',
+                           z3.And(pre.len == 1, _t(row_eq(out_row(pre, 0), src_row(S, 0))), res.out.len == 0))
+            h.explore(body)
